@@ -386,6 +386,14 @@ func (c *Compiler) compileStatement(stmt ast.Statement) error {
 
 // compileAssignStatement compiles variable assignment
 func (c *Compiler) compileAssignStatement(stmt *ast.AssignStatement) error {
+	// `$ obj.field = value` mutates an object in place. There is no bytecode
+	// for that; storing to a variable literally named "obj.field" would drop
+	// the assignment silently. Report it as unsupported so the caller falls
+	// back to the interpreter, as it does for index assignment.
+	if strings.Contains(stmt.Target, ".") {
+		return fmt.Errorf("unsupported statement: field assignment to %s", stmt.Target)
+	}
+
 	// Check for redeclaration in current scope (issue #70)
 	// Variables declared with $ cannot be redeclared in the same scope
 	// Built-in variables (query, input, ws, auth) can be shadowed by user declarations
